@@ -48,6 +48,42 @@ pub unsafe extern "C" fn getrandom(
     buflen as libc::ssize_t
 }
 
+// ------------------------------------------------------------------ clock
+
+/// 0 = real clock; otherwise nanoseconds the simulated clock advances per reading
+static CLOCK_STEP_NS: AtomicU64 = AtomicU64::new(0);
+static CLOCK_READS: AtomicU64 = AtomicU64::new(0);
+
+/// The library has no timer or deadline today (one `SystemTime::now()` feeds the debug
+/// log's `started_at`). Should that change, time must be the simulator's: `clock_gettime`
+/// is interposed like `getrandom`. In a simulated process every reading returns a fixed
+/// epoch plus (number of readings so far) x (the plan's step): a "fast machine" when the
+/// step is a microsecond, a machine that stalls for a second between any two readings when
+/// it is 10^9. Outside simulated processes (driver, workers) the real clock answers.
+#[no_mangle]
+pub unsafe extern "C" fn clock_gettime(clk: libc::clockid_t, tp: *mut libc::timespec) -> libc::c_int {
+    let step = CLOCK_STEP_NS.load(Ordering::SeqCst);
+    if step == 0 || tp.is_null() {
+        return libc::syscall(libc::SYS_clock_gettime, clk, tp) as libc::c_int;
+    }
+    let n = CLOCK_READS.fetch_add(1, Ordering::SeqCst);
+    let ns = n.saturating_mul(step);
+    // 2026-01-01T00:00:00Z for wall clocks, 1000 s for monotonic ones
+    let base: u64 = if clk == libc::CLOCK_REALTIME { 1_767_225_600 } else { 1_000 };
+    (*tp).tv_sec = (base + ns / 1_000_000_000) as libc::time_t;
+    (*tp).tv_nsec = (ns % 1_000_000_000) as libc::c_long;
+    0
+}
+
+pub fn set_clock_step(ns: u64) {
+    CLOCK_READS.store(0, Ordering::SeqCst);
+    CLOCK_STEP_NS.store(ns, Ordering::SeqCst);
+}
+
+pub fn clock_reads() -> u64 {
+    CLOCK_READS.load(Ordering::SeqCst)
+}
+
 /// New hash base: threads created from now on get keys derived from it.
 pub fn set_hash_base(base: u64) {
     HASH_BASE.store(base, Ordering::SeqCst);
